@@ -1,11 +1,296 @@
 import Driver.Wire
+import Driver.KRooms
+import Sio.Model.PubSub
 open Lean (Json)
 namespace Sio.KPubSub
-open Sio.Wire
+open Sio.Wire Sio.Rooms Sio.PubSub
 
-/-- stub: replaced by the kernel's line-protocol handler -/
-def step (_ : Unit) (_ : Json) : Except String (Unit × Json) := throw "kernel not implemented"
+/-- the cluster and, fed with the same operations, the single reference server -/
+structure DSt where
+  c : Cluster
+  s : Single
 
-def main : IO Unit := lineLoop () step
+def mkHost (id : Str) : Host := { id := id }
+
+def init : DSt := ⟨{ hosts := [], wo := mkHost [] }, { srv := mkHost [] }⟩
+
+def nat (n : Nat) : Json := Json.num n
+
+def optNat : Option Nat → Json
+  | none => Json.null
+  | some n => nat n
+
+def jArr (xs : List J) : Json := Json.arr (xs.map jToJson).toArray
+
+def targetToJson : Target → Json
+  | .all => Json.null
+  | .one r => Json.mkObj [("one", strToJson r)]
+  | .many rs => Json.mkObj [("many", KRooms.strsToJson rs)]
+
+def skipToJson : Skip → Json
+  | .none => Json.null
+  | .one s => Json.mkObj [("one", strToJson s)]
+  | .many ss => Json.mkObj [("many", KRooms.strsToJson ss)]
+
+def outToJson : Out → Json
+  | .send host sid eio f =>
+    Json.mkObj [("k", "send"), ("host", strToJson host), ("sid", strToJson sid), ("eio", strToJson eio),
+                ("ns", strToJson f.ns), ("ev", jToJson f.ev), ("args", jArr f.args), ("id", optNat f.id)]
+  | .sendDisc host sid eio ns =>
+    Json.mkObj [("k", "disc"), ("host", strToJson host), ("sid", strToJson sid), ("eio", strToJson eio),
+                ("ns", strToJson ns)]
+  | .discHandler host sid ns =>
+    Json.mkObj [("k", "disc_handler"), ("host", strToJson host), ("sid", strToJson sid), ("ns", strToJson ns)]
+  | .callback host tok args =>
+    Json.mkObj [("k", "callback"), ("host", strToJson host), ("tok", nat tok), ("args", jArr args)]
+  | .handlerError host e =>
+    Json.mkObj [("k", "handler_error"), ("host", strToJson host), ("exc", Json.str e.name)]
+  | .restarted host => Json.mkObj [("k", "restarted"), ("host", strToJson host)]
+  | .raised e => Json.mkObj [("k", "raised"), ("exc", Json.str e.name)]
+
+def outsToJson (l : List Out) : Json := Json.arr (l.map outToJson).toArray
+
+def msgToJson : Msg → Json
+  | .emit host ev d ns to skip cb =>
+    Json.mkObj [("method", "emit"), ("host_id", strToJson host), ("event", strToJson ev),
+                ("data", dataToJson d), ("namespace", strToJson ns), ("room", targetToJson to),
+                ("skip_sid", skipToJson skip),
+                ("callback", match cb with
+                  | none => Json.null
+                  | some (k, n, i) => Json.arr #[strToJson k, strToJson n, nat i])]
+  | .callback origin key ns id args =>
+    Json.mkObj [("method", "callback"), ("host_id", optStrToJson origin), ("sid", strToJson key),
+                ("namespace", strToJson ns), ("id", nat id), ("args", jArr args)]
+  | .disconnect host sid ns =>
+    Json.mkObj [("method", "disconnect"), ("host_id", strToJson host), ("sid", strToJson sid),
+                ("namespace", strToJson ns)]
+  | .enterRoom host sid ns room =>
+    Json.mkObj [("method", "enter_room"), ("host_id", strToJson host), ("sid", strToJson sid),
+                ("namespace", strToJson ns), ("room", strToJson room)]
+  | .leaveRoom host sid ns room =>
+    Json.mkObj [("method", "leave_room"), ("host_id", strToJson host), ("sid", strToJson sid),
+                ("namespace", strToJson ns), ("room", strToJson room)]
+  | .closeRoom host ns room =>
+    Json.mkObj [("method", "close_room"), ("host_id", strToJson host), ("namespace", strToJson ns),
+                ("room", strToJson room)]
+
+def msgsToJson (l : List Msg) : Json := Json.arr (l.map msgToJson).toArray
+
+def entryToJson (e : Rooms.Entry) : Json :=
+  Json.arr #[strToJson e.ns, optStrToJson e.room, strToJson e.sid, strToJson e.eio]
+
+def field (j : Json) (k : String) : Except String Json := j.getObjVal? k
+
+def fieldD (j : Json) (k : String) : Json :=
+  match j.getObjVal? k with
+  | .ok v => v
+  | .error _ => Json.null
+
+def jList (j : Json) : Except String (List J) := do
+  let a ← j.getArr?
+  a.toList.mapM jOfJson
+
+def opOfJson (j : Json) : Except String PubSub.Op := do
+  let k ← (← field j "op").getStr?
+  if k == "drain" then pure .drain
+  else if k == "deliver" then
+    pure (.deliver (← strOfJson (← field j "h")) (← (← field j "k").getNat?))
+  else
+  let ns ← strOfJson (← field j "ns")
+  if k == "connect" then
+    pure (.connect (← strOfJson (← field j "h")) ns (← strOfJson (← field j "eio")) (← strOfJson (← field j "sid")))
+  else if k == "enter" then
+    pure (.enter (← strOfJson (← field j "via")) ns (← strOfJson (← field j "sid")) (← strOfJson (← field j "room")))
+  else if k == "leave" then
+    pure (.leave (← strOfJson (← field j "via")) ns (← strOfJson (← field j "sid")) (← strOfJson (← field j "room")))
+  else if k == "close" then
+    pure (.close (← strOfJson (← field j "via")) ns (← strOfJson (← field j "room")))
+  else if k == "disconnect" then
+    pure (.disconnect (← strOfJson (← field j "via")) ns (← strOfJson (← field j "sid")))
+  else if k == "ack" then
+    pure (.ack ns (← strOfJson (← field j "sid")) (← (← field j "n").getNat?) (← jList (← field j "args")))
+  else if k == "emit" then
+    let via ← optStrOfJson (fieldD j "via")
+    let ev ← strOfJson (← field j "ev")
+    let d ← dataOfJson (← field j "data")
+    let to ← KRooms.targetOfJson (fieldD j "to")
+    let skip ← KRooms.skipOfJson (fieldD j "skip")
+    let cb ← (let c := fieldD j "cb"; if c.isNull then pure none else do let n ← c.getNat?; pure (some n))
+    pure (.emit via ev d ns to skip cb)
+  else throw s!"unknown op {k}"
+
+/-! ### classified garbage (C15) -/
+
+def fldOfJson (j : Json) : Except String (Fld Str) :=
+  match j with
+  | Json.str "absent" => pure .absent
+  | Json.str "none" => pure .none
+  | Json.str "unhashable" => pure .unhashable
+  | Json.str "other" => pure .other
+  | _ => do let s ← strOfJson (← field j "ok"); pure (.ok s)
+
+def roomFldOfJson (j : Json) : Except String RoomFld :=
+  if j.isNull then pure .none else
+  match j with
+  | Json.str "dict" => pure .dict
+  | _ =>
+    match j.getObjVal? "str" with
+    | .ok v => do let s ← strOfJson v; pure (.str s)
+    | .error _ => do let rs ← KRooms.strArr (← field j "list"); pure (.list rs)
+
+def cbFldOfJson (j : Json) : Except String CbFld :=
+  if j.isNull then pure .none else
+  match j with
+  | Json.str "noLen" => pure .noLen
+  | Json.str "wrongLen" => pure .wrongLen
+  | _ => do
+    let a ← (← field j "tok").getArr?
+    match a.toList with
+    | [k, n, i] => pure (.tok (← strOfJson k) (← strOfJson n) (← i.getNat?))
+    | _ => throw "bad tok"
+
+def idFldOfJson (j : Json) : Except String IdFld :=
+  match j with
+  | Json.str "absent" => pure .absent
+  | Json.str "other" => pure .other
+  | _ => do let n ← (← field j "ok").getNat?; pure (.ok n)
+
+def argsFldOfJson (j : Json) : Except String ArgsFld :=
+  match j with
+  | Json.str "absent" => pure .absent
+  | Json.str "nonIterable" => pure .nonIterable
+  | _ => do let xs ← jList (← field j "ok"); pure (.ok xs)
+
+def dmsgOfJson (j : Json) : Except String DMsg := do
+  let method ← optStrOfJson (fieldD j "method")
+  let hostId ← optStrOfJson (fieldD j "host_id")
+  let event ← optJOfJson (fieldD j "event")
+  let data ← (match (fieldD j "data").getObjVal? "some" with
+    | .ok v => do let d ← dataOfJson v; pure (some d)
+    | .error _ => pure none)
+  let ns ← fldOfJson (← field j "ns")
+  let room ← roomFldOfJson (fieldD j "room")
+  let skip ← KRooms.skipOfJson (fieldD j "skip")
+  let cb ← cbFldOfJson (fieldD j "cb")
+  let sid ← fldOfJson (← field j "sid")
+  let id ← idFldOfJson (← field j "id")
+  let args ← argsFldOfJson (← field j "args")
+  pure { method, hostId, event, data, ns, room, skip, cb, sid, id, args }
+
+def decodedOfJson (j : Json) : Except String Decoded :=
+  match j with
+  | Json.str "none" => pure .none
+  | Json.str "falsy" => pure .falsy
+  | Json.str "scalar" => pure .scalar
+  | Json.str "dictNoMethod" => pure .dictNoMethod
+  | _ =>
+    match j.getObjVal? "seq" with
+    | .ok v => do let b ← v.getBool?; pure (.seq b)
+    | .error _ => do let m ← dmsgOfJson (← field j "dict"); pure (.dict m)
+
+def faultOfJson (j : Json) : Fault :=
+  match j with
+  | Json.str "app" => .app
+  | Json.str "srv" => .srv
+  | Json.str "fatal" => .fatal
+  | _ => .none
+
+def entryOfJson (chan : List Msg) (j : Json) : Except String PubSub.Item := do
+  let fault := faultOfJson (fieldD j "fault")
+  match j.getObjVal? "chan" with
+  | .ok v => do
+    let i ← v.getNat?
+    match chan[i]? with
+    | some m => pure { raw := .bytes (.dict m.toD) .none, fault }
+    | none => throw "no such channel entry"
+  | .error _ =>
+    let r ← field j "raw"
+    match r with
+    | Json.str "listenRaises" => pure { raw := .listenRaises, fault }
+    | _ =>
+      match r.getObjVal? "dict" with
+      | .ok v => do let d ← decodedOfJson v; pure { raw := .dict d, fault }
+      | .error _ =>
+      match r.getObjVal? "text" with
+      | .ok v => do let d ← decodedOfJson v; pure { raw := .text d, fault }
+      | .error _ => do
+        let a ← (← field r "bytes").getArr?
+        match a.toList with
+        | [p, q] => pure { raw := .bytes (← decodedOfJson p) (← decodedOfJson q), fault }
+        | _ => throw "bad bytes entry"
+
+def passOfJson (j : Json) : Except String Pass :=
+  match j with
+  | Json.str "connectFails" => pure .connectFails
+  | _ =>
+    match j.getObjVal? "listenFails" with
+    | .ok v => do let n ← v.getNat?; pure (.listenFails n)
+    | .error _ => do let n ← (← field j "listenEnds").getNat?; pure (.listenEnds n)
+
+def replaceHost (hosts : List Host) (h : Host) : List Host :=
+  hosts.map (fun x => if x.id = h.id then h else x)
+
+def cursorsJson (c : Cluster) : Json :=
+  Json.arr (c.hosts.map (fun h => Json.arr #[strToJson h.id, nat h.cursor])).toArray
+
+def step (d : DSt) (j : Json) : Except String (DSt × Json) := do
+  let op ← (← field j "op").getStr?
+  if op == "reset" then
+    let ids ← KRooms.strArr (← field j "hosts")
+    let wo ← strOfJson (← field j "wo")
+    pure (⟨{ hosts := ids.map mkHost, wo := mkHost wo }, { srv := mkHost "single".toList }⟩,
+          Json.mkObj [("ok", true)])
+  else if op == "c" then
+    -- one operation on the cluster
+    let o ← opOfJson (← field j "do")
+    let before := d.c.chan.length
+    let r := PubSub.step d.c o
+    pure ({ d with c := r.1 },
+          Json.mkObj [("out", outsToJson r.2), ("pub", msgsToJson (r.1.chan.drop before)),
+                      ("cursors", cursorsJson r.1), ("chan", nat r.1.chan.length)])
+  else if op == "s" then
+    -- the same operation on the single reference server
+    let o ← opOfJson (← field j "do")
+    let r := d.s.step o
+    pure ({ d with s := r.1 }, Json.mkObj [("out", outsToJson r.2)])
+  else if op == "rooms" then
+    -- the room table of one host (or of the single server)
+    let hid ← optStrOfJson (fieldD j "h")
+    let rooms : List Rooms.Entry := match hid with
+      | none => d.s.srv.rooms
+      | some hid => match d.c.hosts.find? (fun (h : Host) => h.id = hid) with
+        | some h => h.rooms
+        | none => []
+    pure (d, Json.mkObj [("rooms", Json.arr (rooms.map entryToJson).toArray)])
+  else if op == "cb" then
+    -- is `callbacks[key][id]` present on host h?
+    let hid ← strOfJson (← field j "h")
+    let key ← strOfJson (← field j "key")
+    let id ← (← field j "id").getNat?
+    let present := match d.c.hosts.find? (fun (h : Host) => h.id = hid) with
+      | some h => (h.cbs key id).isSome
+      | none => false
+    pure (d, Json.mkObj [("present", present)])
+  else if op == "listen" then
+    -- the listener of host h over a stream of classified entries (C15); the host keeps the result
+    let hid ← strOfJson (← field j "h")
+    let es ← (← (← field j "entries").getArr?).toList.mapM (entryOfJson d.c.chan)
+    match d.c.hosts.find? (fun (h : Host) => h.id = hid) with
+    | none => throw "no such host"
+    | some h =>
+      let r := listen h es
+      let c := { d.c with hosts := replaceHost d.c.hosts r.h, chan := d.c.chan ++ r.pubs,
+                          asked := d.c.asked ++ askedIn r.outs }
+      pure ({ d with c := c },
+            Json.mkObj [("out", outsToJson r.outs), ("pub", msgsToJson r.pubs), ("alive", r.alive)])
+  else if op == "retry" then
+    let ps ← (← (← field j "passes").getArr?).toList.mapM passOfJson
+    let r := retryRun {} ps
+    pure (d, Json.mkObj [("yielded", nat r.2.yielded),
+                         ("sleeps", Json.arr (r.2.sleeps.map nat).toArray),
+                         ("reconnects", nat r.2.reconnects)])
+  else throw s!"unknown op {op}"
+
+def main : IO Unit := lineLoop init step
 
 end Sio.KPubSub
